@@ -6,6 +6,8 @@ current script the Context picks the first feasible alternative and schedules th
 paths are eventually executed. Everything that influences naming (fresh variables) is reset per run, hence a
 script prefix always reproduces the same prefix of execution.
 """
+import os
+import sys
 import time
 
 from . import ir, smt
@@ -174,5 +176,9 @@ def explore(ctx, run, on_unsupported='record'):
             outcome, value, state = 'unsupported', str(e), None
         results.append(PathResult(outcome, value, list(ctx.pc), list(ctx.obligations), list(ctx.events),
                                   list(ctx.trace), state))
+        if os.environ.get('VERIF_TRACE_PATHS'):
+            sys.stderr.write('path %d: %s %s trace=%r feas=%d (%.1fs) last pc: %s\n' % (
+                ctx.stats['paths'], outcome, str(value)[:80], ctx.trace, ctx.stats['feas_queries'],
+                ctx.stats['feas_seconds'], ir.show(ctx.pc[-1])[:160] if ctx.pc else ''))
         stack.extend(ctx.pending)
     return results
